@@ -47,6 +47,10 @@ var (
 	fsOps      int
 )
 
+// OnFSMut, when set by a harness, is called at every mutating operation
+// (symbolic runs only): the place for "which locks are held right now" monitors.
+var OnFSMut func(op FSOp)
+
 // FSCrash is panicked when the configured crash point is reached.
 type FSCrash struct{}
 
@@ -55,6 +59,9 @@ func fsMut(op, path string, off, n int64) {
 		panic(FSCrash{})
 	}
 	fsOps++
+	if OnFSMut != nil {
+		OnFSMut(FSOp{op, path, off, n})
+	}
 	if FSLogOn {
 		FSLog = append(FSLog, FSOp{op, path, off, n})
 	}
